@@ -30,7 +30,7 @@ REPO = Path(os.environ.get("VERIF_REPO", "/repo"))
 FLAG = {"GOOD": ".good", "UNKNOWN": ".unknown", "SUSPECT": ".suspect", "FAIL": ".fail", "MISSING": ".missing"}
 FUNCS = {"gross_range_test": "ioos_qc/qartod.py", "spike_test": "ioos_qc/qartod.py", "rate_of_change_test": "ioos_qc/qartod.py",
          "location_test": "ioos_qc/qartod.py", "density_inversion_test": "ioos_qc/qartod.py",
-         "flat_line_test": "ioos_qc/qartod.py", "climatology_test": "ioos_qc/qartod.py", "attenuated_signal_test": "ioos_qc/qartod.py", "save": "ioos_qc/stores.py", "collect_results_dict": "ioos_qc/results.py", "Call_run": "ioos_qc/config.py", "qartod_compare": "ioos_qc/qartod.py", "speed_test": "ioos_qc/argo.py", "pressure_increasing_test": "ioos_qc/argo.py", "valid_range_test": "ioos_qc/axds.py"}
+         "flat_line_test": "ioos_qc/qartod.py", "climatology_test": "ioos_qc/qartod.py", "attenuated_signal_test": "ioos_qc/qartod.py", "save": "ioos_qc/stores.py", "collect_results_dict": "ioos_qc/results.py", "Call_run": "ioos_qc/config.py", "ContextConfig_calls": "ioos_qc/config.py", "qartod_compare": "ioos_qc/qartod.py", "speed_test": "ioos_qc/argo.py", "pressure_increasing_test": "ioos_qc/argo.py", "valid_range_test": "ioos_qc/axds.py"}
 
 
 class Untranslatable(Exception):
@@ -1135,7 +1135,53 @@ def translate_call_run():
     return head + "\n" + "\n".join(out) + "\n"
 
 
+# ------------------------------------------------------------------------------------------------------------------------------
+# config.ContextConfig.__init__: the stream / package / test loops that extract the calls
+# ------------------------------------------------------------------------------------------------------------------------------
+def translate_context_calls():
+    tree = ast.parse((REPO / "ioos_qc/config.py").read_text())
+    cls = next(n for n in tree.body if isinstance(n, ast.ClassDef) and n.name == "ContextConfig")
+    fn = next(n for n in cls.body if isinstance(n, ast.FunctionDef) and n.name == "__init__")
+    loop = next((n for n in fn.body if isinstance(n, ast.For) and src(n.iter) == "self.config['streams'].items()"), None)
+    if loop is None or src(loop.target) != "(stream_id, sc)" or loop.orelse or src(fn.body[-1]) != src(loop):
+        raise Untranslatable("ContextConfig.__init__: the streams loop")
+    out = ["  let mut calls : List CallSpec := []", "  for (stream_id, sc) in streamsOf config do"]
+    if not (len(loop.body) == 1 and isinstance(loop.body[0], ast.For) and src(loop.body[0].target) == "(package, modules)"
+            and src(loop.body[0].iter) == "sc.items()" and not loop.body[0].orelse):
+        raise Untranslatable("ContextConfig.__init__: the package loop")
+    out.append("    for (package, modules) in sc.items do")
+    pb = loop.body[0].body
+    if not (len(pb) == 2 and isinstance(pb[0], ast.Try) and [src(b) for b in pb[0].body] == ["testpackage = import_module(f'ioos_qc.{package}')"]
+            and len(pb[0].handlers) == 1 and src(pb[0].handlers[0].type) == "ImportError" and src(pb[0].handlers[0].body[-1]) == "continue"
+            and all(is_call(getattr(b, "value", None), "L.warning") for b in pb[0].handlers[0].body[:-1]) and not pb[0].orelse and not pb[0].finalbody):
+        raise Untranslatable("ContextConfig.__init__: the import of the package")
+    out += ["      if !(knownMod package) then", "        continue"]
+    tl = pb[1]
+    if not (isinstance(tl, ast.For) and src(tl.target) == "(testname, kwargs)" and src(tl.iter) == "modules.items()" and not tl.orelse):
+        raise Untranslatable("ContextConfig.__init__: the test loop")
+    out.append("      for (testname, kwargs) in modules.items do")
+    for st in tl.body:
+        t = src(st)
+        if t == "kwargs = kwargs or {}":
+            out.append("        let kwargs := orEmpty kwargs")
+        elif isinstance(st, ast.If) and src(st.test) == "not hasattr(testpackage, testname)" and src(st.body[-1]) == "continue" and not st.orelse \
+                and all(is_call(getattr(b, "value", None), "L.warning") for b in st.body[:-1]):
+            out += ["        if !(known package testname) then", "          continue"]
+        elif t == "runfunc = getattr(testpackage, testname)":
+            continue
+        elif t == "self._calls.append(Call(stream_id=stream_id, context=self.context, call=partial(runfunc, (), **kwargs), attrs=getattr(sc, 'attrs', {})))":
+            out.append("        calls := calls ++ [⟨stream_id, package, testname, kwargs, window, region⟩]")
+        else:
+            raise Untranslatable(f"ContextConfig.__init__: {t[:70]}")
+    out.append("  return calls")
+    head = ("def ContextConfig_calls (knownMod : String → Bool) (known : String → String → Bool) (config : J) (window : J) (region : J) "
+            ": List CallSpec := Id.run do")
+    return head + "\n" + "\n".join(out) + "\n"
+
+
 def translate(name: str) -> str:
+    if name == "ContextConfig_calls":
+        return translate_context_calls()
     if name == "Call_run":
         return translate_call_run()
     if name == "collect_results_dict":
